@@ -217,3 +217,16 @@ package common
 //@   loop range:scopeInfos invariant !has(scopeInfos, 0) && hits("FindAllLocalVal#0") >= 0 && (hits("FindAllLocalVal#0") == 0 ==> iterpos() == 0)
 //@        && (old(len(scope.LocVarMap)) == 0 && len(gScopes) == 0 && old(len(scope.SubScopes)) >= 1 && iterpos() == 0 ==> len(scopeInfos) >= 1)
 //@ end
+
+// ---- C20: syntactic equality of expressions (used by the duplicate-condition and self-assignment checks) ----
+// AST nodes are immutable once parsed, so CompExp is a function of its two arguments ("functional").
+//@ func CompExp
+//@   props C20
+//@   functional
+//@ end
+
+// GetExpName renders an expression to its canonical name string (AST immutable => functional).
+//@ func GetExpName
+//@   props C20
+//@   functional
+//@ end
